@@ -4,6 +4,7 @@ package main
 
 import (
 	"fmt"
+	"go/token"
 	"go/types"
 	"strings"
 
@@ -126,6 +127,42 @@ func (e *SpecEnv) lookupName(name string) (Val, bool) {
 				if phi, ok := ins.(*ssa.Phi); ok && phi.Comment == "rangeindex" {
 					v := e.phiValue(phi)
 					return specInt(add(v.C[0], "1")), true
+				}
+			}
+		}
+		if name == "$key" || name == "$val" {
+			// key / value of the innermost enclosing map range
+			for l := e.loop; l != nil; l = enclosing(fr, l) {
+				for _, ins := range l.Header.Instrs {
+					if nx, ok := ins.(*ssa.Next); ok && !nx.IsString {
+						tv, have := fr.vals[nx]
+						if !have {
+							break
+						}
+						tp := nx.Type().(*types.Tuple)
+						idx := 1
+						if name == "$val" {
+							idx = 2
+						}
+						lo, hi := tupleRange(tp, idx)
+						return Val{T: tp.At(idx).Type(), C: tv.C[lo:hi]}, true
+					}
+				}
+			}
+		}
+		if name == "$range" {
+			// the slice ranged over by the innermost enclosing range-over-slice loop
+			for l := e.loop; l != nil; l = enclosing(fr, l) {
+				for _, ins := range l.Header.Instrs {
+					bo, ok := ins.(*ssa.BinOp)
+					if !ok || bo.Op != token.LSS {
+						continue
+					}
+					if call, ok := bo.Y.(*ssa.Call); ok {
+						if b, isB := call.Call.Value.(*ssa.Builtin); isB && b.Name() == "len" {
+							return x.valueOf(fr, call.Call.Args[0]), true
+						}
+					}
 				}
 			}
 		}
